@@ -305,10 +305,24 @@ def compare(impl, model, scen_lines, fields=ALL_FIELDS, noids=False, seq=True):
                 return f"run {k}: error state/trace differs:\n#   impl:  {ta}\n#   model: {tb}"
         if multi and " disabled " not in runlines[k] + " ":
             # with a shared visited cache the start state of a later run may have been evaluated before: how often a
-            # goal/pruned state is counted then depends on the (hash) order of equal-depth start states
+            # goal/pruned state is counted then depends on the (hash) order of equal-depth start states.  What does not depend
+            # on it: only start states can be evaluated twice
+            bound = shared_cache_bound(a, len(ri[k - 1]["C"]) if k > 0 else 0)
+            if bound:
+                return f"run {k}: {bound}"
             continue
         if norm_stat(a["stat"]) != norm_stat(b["stat"]):
             return f"run {k}: status counts differ: impl {a['stat']} model {b['stat']}"
+    return None
+
+
+def shared_cache_bound(run, nstarts):
+    """staged run with one shared visited cache: every evaluation except those of the start states is of a state not seen before,
+    so #evaluations <= #distinct states + #start states"""
+    keys = [project(l, ["N", "E", "A", "TM", "nx"], False) for l in run["E"]]
+    if len(keys) > len(set(keys)) + nstarts:
+        return (f"the staged run shares one visited cache, yet {len(keys)} evaluations cover only {len(set(keys))} distinct states "
+                f"with {nstarts} start states: states reachable from several start states were explored again")
     return None
 
 
